@@ -261,6 +261,7 @@ fn main() {
             }
             match kind {
                 "extra-guess" => bad("a guess for an undeclared entity was accepted".into(), "extra-guess-accepted"),
+                "missing-guess" => bad("a text that omits the guess of a declared entity was accepted".into(), "missing-guess-accepted"),
                 "undeclared-reference" => bad("a reference to an undeclared label was accepted".into(), "undeclared-reference-accepted"),
                 _ => {}
             }
